@@ -591,6 +591,21 @@ def call_function(I: Interp, finfo: FuncInfo, selfv, args, kwargs, fr: Frame, no
         return const(None)
     top: Contract = st.cfg.get("contract")
     key = finfo.key
+    if top is not None and top.abstract_callees and key != top.key.split("#")[0] and not finfo.is_property and not st.spec_depth:
+        if st.guards or st.binder_asms:
+            raise Refuse("abstracted callee inside a merged expression")
+        st.log.append(f"callee {finfo.qualname} abstracted (any effect, any result) in the termination view of {top.key.split('::')[1]}")
+        havoc(I, ["heap"], fr)
+        a2 = st.fresh("alloc", smt.I)
+        st.assume(a2 >= st.alloc)
+        st.alloc = a2
+        return fresh_of_type(I, f"abs_{finfo.name}", return_type(finfo))
+    if top is not None and finfo.name in top.use_dispatch and finfo.cls is not None and not st.spec_depth:
+        for base in finfo.cls.mro():
+            bm = base.methods.get(finfo.name)
+            if bm is not None and bm.key in REG.dispatch:
+                st.log.append(f"call of {finfo.qualname}: dispatch contract of {bm.qualname} used (requested by the contract of {top.key.split('::')[1]})")
+                return apply_contract(I, REG.dispatch[bm.key], bm, selfv, args, kwargs, fr, node)
     con = find_contract(finfo, selfv)
     is_self_call = selfv is not None and fr.selfv is not None and isinstance(selfv, SV) and isinstance(fr.selfv, SV) and z3.eq(selfv.t, fr.selfv.t)
     if not exact and not is_self_call and finfo.cls is not None and isinstance(selfv, SV):
@@ -741,6 +756,16 @@ def apply_contract(I: Interp, con: Contract, finfo: FuncInfo, selfv, args, kwarg
         raise Refuse(f"call of {finfo.key} under a quantifier binder needs a heap-pure contract")
     for label, e in con.requires:
         st.oblige("callpre", f"{finfo.qualname}.{label}@L{line}", spec_bool(I, e, sf), line)
+    top_ = st.cfg.get("contract")
+    if con.decreases and top_ is not None and top_.key.split("#")[0] == con.key.split("#")[0] and st.cfg.get("spec_frame") is not None:
+        # a recursive call of the function under verification: the measure of the callee's arguments is below the measure at entry
+        callee_m, _ = I.num(ev_spec(I, con.decreases, sf))
+        st.old_stack.append(st.entry_heap)
+        try:
+            entry_m, _ = I.num(ev_spec(I, con.decreases, st.cfg["spec_frame_entry"]))
+        finally:
+            st.old_stack.pop()
+        st.oblige("termination", f"decreases@L{line}", z3.And(callee_m >= 0, callee_m < entry_m), line)
     for label, e in con.axioms:
         st.assume(spec_bool(I, e, sf))
     if not con.verify and REG.ufuns:
